@@ -45,6 +45,29 @@ theorem work_so_far_is_a_prefix (steps : Array (Step J)) (src : Src J) (hq : Qui
     ∃ E2, stream steps.toList 0 src.rootNode = E ++ E2 :=
   yields_stream_prefix steps src hq hp limit st' rs E hy
 
+/-- … and it has stopped *at* that result: the work done by `k ≥ 1` successful `next()` calls
+ends with the event that reports the `k`-th result — nothing is computed ahead, for every path,
+document kind and data source (with `work_so_far_is_a_prefix`: the work is exactly the
+specification's stream up to and including the `k`-th result) -/
+theorem work_ends_at_kth_result {α} (view : α → View α) (steps : Array (Step α)) (src : Src α)
+    (hp : PredsClean steps) (limit : Nat) (st st' : St α) (rs : List (MNode α)) (E : List (Ev α))
+    (hy : Yields view steps src limit st rs E st') (hne : rs ≠ []) :
+    ∃ pre n, E = pre ++ [.result n] ∧ rs.getLast? = some n := by
+  induction hy with
+  | nil st => exact absurd rfl hne
+  | cons st st1 st2 evs n rs E hnext hrest ih =>
+    by_cases hr : rs = []
+    · subst hr
+      cases hrest
+      obtain ⟨j, pre, last, _, hev, _, hl⟩ := next_segment view steps src hp limit st st1 evs _ hnext (.inl ⟨n, rfl⟩)
+      rcases hl with ⟨m, hm, hlast⟩ | ⟨hm, _⟩
+      · cases hm
+        exact ⟨pre, n, by rw [hev, hlast]; simp, rfl⟩
+      · cases hm
+    · obtain ⟨pre, m, hE, hlast⟩ := ih hr
+      refine ⟨evs ++ pre, m, by rw [hE]; simp, ?_⟩
+      rw [List.getLast?_cons_of_ne_nil hr] <;> exact hlast
+
 /-- `iter(it)` on an iterator in any state — part-way, exhausted, stuck at a raising
 predicate — starts the search over: every following sequence of `next()` calls observes
 (events and signals) exactly what it observes on a fresh iterator.  (What `iter()` does is
